@@ -204,10 +204,10 @@ func bases(ctx context.Context) (map[string]*pgsim.DB, error) {
 	}
 	seed := []lx.Op{
 		{Kind: "post", Postings: []lx.P{{Src: "world", Dst: "z", Ast: "USD", Amt: "1"}}, Meta: map[string]string{"seed": "1"}, Ref: "seed-ref", IK: "seed-ik"}, // tx 1
-		{Kind: "post", Postings: []lx.P{{Src: "world", Dst: "y", Ast: "USD", Amt: "1"}}},                                                                        // tx 2
-		{Kind: "post", Postings: []lx.P{{Src: "world", Dst: "x", Ast: "USD", Amt: "4"}}},                                                                        // tx 3
-		{Kind: "post", Postings: []lx.P{{Src: "x", Dst: "y", Ast: "USD", Amt: "4"}}},                                                                            // tx 4: x emptied, revert of 3 lacks funds
-		{Kind: "revert", TxID: 2, Force: true},                                                                                                                  // tx 5
+		{Kind: "post", Postings: []lx.P{{Src: "world", Dst: "y", Ast: "USD", Amt: "1"}}},                                                                       // tx 2
+		{Kind: "post", Postings: []lx.P{{Src: "world", Dst: "x", Ast: "USD", Amt: "4"}}},                                                                       // tx 3
+		{Kind: "post", Postings: []lx.P{{Src: "x", Dst: "y", Ast: "USD", Amt: "4"}}},                                                                           // tx 4: x emptied, revert of 3 lacks funds
+		{Kind: "revert", TxID: 2, Force: true},                                                                                                                 // tx 5
 		{Kind: "accmeta", Address: "z", Meta: map[string]string{"seed": "1"}},
 		{Kind: "schema", Schema: "v0", SchemaData: `{"chart":{"world":{},"a":{},"s":{},"m":{},"z":{},"y":{},"x":{},"q":{}}}`},
 	}
@@ -225,7 +225,7 @@ type call struct{ Op, SQL string }
 
 type fault struct {
 	At   int    // index of the driver call (0-based) within the probe
-	Kind string // conn | stmt | cancel | commit | begin
+	Kind string // conn | stmt | cancel | commit | begin | deadlock
 }
 
 func (f fault) String() string { return fmt.Sprintf("%s@%d", f.Kind, f.At) }
@@ -239,7 +239,10 @@ func faultKinds(op string) []string {
 	case "commit":
 		return []string{"commit", "conn"}
 	case "exec", "query":
-		return []string{"stmt", "conn", "cancel"}
+		// deadlock: SQLSTATE 40P01 at this statement, the one failure the ledger retries
+		// (forgeLogRetry) instead of reporting: the failed first attempt must leave no
+		// trace, and a retried dry run must still not be committed (seeded change C07)
+		return []string{"stmt", "conn", "cancel", "deadlock"}
 	}
 	return nil
 }
@@ -290,6 +293,8 @@ func runTrial(ctx context.Context, base *pgsim.DB, p probe, faults []fault, dry 
 				return &pgsim.BadConnFault{Msg: "connection reset by peer"}
 			case "stmt":
 				return &pgsim.StmtFault{Code: "57014", Msg: "canceling statement due to statement timeout"}
+			case "deadlock":
+				return &pgsim.StmtFault{Code: "40P01", Msg: "deadlock detected"}
 			case "cancel":
 				return context.Canceled
 			case "commit":
@@ -318,7 +323,8 @@ func runTrial(ctx context.Context, base *pgsim.DB, p probe, faults []fault, dry 
 type counters struct {
 	sync.Mutex
 	evaluations, failedClean, absorbed, dryRuns, natural int
-	distinct                                            map[string]bool
+	dryFaulted, dryRetried, absorbedCounted              int
+	distinct                                             map[string]bool
 }
 
 func parallelDo(n int, stop func() bool, fn func(i int)) bool {
@@ -372,9 +378,15 @@ func c07() int {
 			r.EngineError(fmt.Sprintf("probe %s/%s does not succeed without faults: %v", p.Base, p.Name, clean.res.Err))
 			continue
 		}
+		if p.Expect > 0 && (clean.logsA-clean.logsB != p.Expect || len(clean.events) != p.Expect) {
+			r.EngineError(fmt.Sprintf("probe %s/%s: fault-free run produced %d logs and %d events, the probe table says %d", p.Base, p.Name, clean.logsA-clean.logsB, len(clean.events), p.Expect))
+			continue
+		}
 		for i, c := range clean.calls {
 			for _, k := range faultKinds(c.Op) {
 				jobs = append(jobs, job{p: p, faults: []fault{{At: i, Kind: k}}})
+				// the same fault striking the dry run of the probe
+				jobs = append(jobs, job{p: p, faults: []fault{{At: i, Kind: k}}, dry: true})
 			}
 		}
 		if r.Thorough() && p.Kind == "single" {
@@ -429,7 +441,15 @@ func c07() int {
 			if len(t.events) > 0 {
 				r.Violation("C07:dry-run-event:"+j.p.Name, fmt.Sprintf("%s dry run published %d events", label, len(t.events)), replay)
 			}
-			if !j.nat && j.p.Kind == "single" {
+			if len(j.faults) > 0 {
+				cnt.Lock()
+				cnt.dryFaulted++
+				if t.res.OK {
+					cnt.dryRetried++
+				}
+				cnt.Unlock()
+			}
+			if !j.nat && j.p.Kind == "single" && len(j.faults) == 0 {
 				real := runTrial(ctx, bs[j.p.Base], j.p, nil, false)
 				if real.res.OK != t.res.OK || real.res.Postings != t.res.Postings {
 					r.Violation("C07:dry-run-result-differs:"+j.p.Name, fmt.Sprintf("%s dry run returned ok=%v %s, the real write ok=%v %s", label, t.res.OK, t.res.Postings, real.res.OK, real.res.Postings), replay)
@@ -468,22 +488,43 @@ func c07() int {
 			cnt.Lock()
 			cnt.absorbed++
 			cnt.Unlock()
+			// the write succeeded although a fault struck (retried deadlock, fault after the
+			// commit point): whatever attempt failed on the way must have left no trace, so
+			// the write shows exactly once
+			if !j.nat && j.p.Kind != "bulk" && j.p.Expect > 0 {
+				cnt.Lock()
+				cnt.absorbedCounted++
+				cnt.Unlock()
+				if t.logsA-t.logsB != j.p.Expect || len(t.events) != j.p.Expect {
+					r.Violation("C07:retried-write-trace:"+j.p.Name+":"+sigKind(), fmt.Sprintf("%s %s succeeded; it produced %d logs and %d events, a single execution produces %d", label, fl, t.logsA-t.logsB, len(t.events), j.p.Expect), replay)
+				}
+			}
 		}
 		samples.Add(map[string]any{"probe": label, "faults": fl, "dryRun": j.dry, "result_ok": t.res.OK, "class": t.res.Class, "driver_calls": len(t.calls)})
 	})
-	if cnt.failedClean == 0 && r.ViolationCount() == 0 {
-		r.EngineError("vacuous: no injected fault made a write fail")
+	if r.ViolationCount() == 0 {
+		switch {
+		case cnt.failedClean == 0:
+			r.EngineError("vacuous: no injected fault made a write fail")
+		case cnt.dryRetried == 0:
+			r.EngineError("vacuous: no dry run struck by a fault went on to succeed (the retry path of a dry run was never taken)")
+		case cnt.absorbedCounted == 0:
+			r.EngineError("vacuous: no write succeeded despite a fault (retry path never taken)")
+		}
 	}
 	return r.Finish(ev.Coverage{
-		"evaluations":         cnt.evaluations,
-		"distinct_nontrivial": len(cnt.distinct),
-		"rule":                "probes = every write kind (create by postings, by script with account metadata, account/transaction metadata set/delete, revert, insert schema, atomic bulk, non-atomic bulk) from a pristine (initializing) and an in-use ledger; for each, a fault at EVERY driver call of its fault-free trace x every applicable kind (statement error with aborted transaction, dropped connection, context cancellation, failed COMMIT, failed BEGIN); thorough adds every pair (statement error at i, dropped connection at j>i, rollback path included) for single writes; plus 17 naturally failing inputs and a dry run of every probe. Oracle: error returned => canonical dump of every table before == after and no event; dry run => same result as the real write on a clone, database unchanged; non-atomic bulk => logs and events == successful elements. distinct_nontrivial = distinct (probe, fault plan, dry) cases executed",
-		"samples":             samples.List(),
+		"evaluations":                cnt.evaluations,
+		"distinct_nontrivial":        len(cnt.distinct),
+		"rule":                       "probes = every write kind (create by postings, by script with account metadata, account/transaction metadata set/delete, revert, insert schema, atomic bulk, non-atomic bulk) from a pristine (initializing) and an in-use ledger; for each, a fault at EVERY driver call of its fault-free trace x every applicable kind (statement error with aborted transaction, deadlock 40P01 — which the ledger retries —, dropped connection, context cancellation, failed COMMIT, failed BEGIN), against the write and against its dry run; thorough adds every pair (statement error at i, dropped connection at j>i, rollback path included) for single writes; plus 17 naturally failing inputs and a dry run of every probe. Oracle: error returned => canonical dump of every table before == after and no event; dry run (struck by a fault or not) => database unchanged and no event, fault-free dry run => same result as the real write on a clone; a write that succeeds despite a fault (retry) => exactly the logs and events of one execution; non-atomic bulk => logs and events == successful elements. distinct_nontrivial = distinct (probe, fault plan, dry) cases executed",
+		"samples":                    samples.List(),
 		"fault_cases_failed_cleanly": cnt.failedClean,
-		"faults_absorbed":     cnt.absorbed,
-		"dry_runs":            cnt.dryRuns,
-		"natural_failures":    cnt.natural,
-		"exhaustive":          complete,
+		"faults_absorbed":            cnt.absorbed,
+		"dry_runs":                   cnt.dryRuns,
+		"dry_runs_struck_by_a_fault": cnt.dryFaulted,
+		"faulted_dry_runs_that_went_on_to_succeed":         cnt.dryRetried,
+		"successes_despite_fault_with_trace_count_checked": cnt.absorbedCounted,
+		"natural_failures": cnt.natural,
+		"exhaustive":       complete,
 	}, []string{pgsimAssumption})
 }
 
